@@ -35,6 +35,8 @@ type IdP struct {
 	TokenFault    string // "", refuse, noidtoken, badsig, wrongiss, wrongaud, expired, noclaim, 5xx, garbage
 	UserinfoFault string // "", 401, 5xx, garbage, refuse, cut
 	Down          bool   // every request fails at connection level
+	// JWTAccessTokens: access tokens are signed JWTs instead of opaque strings
+	JWTAccessTokens bool
 	// ExpiredBy: how long ago the ID tokens of the "expired" fault expired (default 10 min)
 	ExpiredBy time.Duration
 	// TokenPad: access tokens are that many characters longer
@@ -76,6 +78,15 @@ func (w *World) NewIdP() *IdP {
 func (p *IdP) IssueAccessToken(sub string) string {
 	p.seq++
 	at := fmt.Sprintf("at-%d-%s", p.seq, sub)
+	if p.JWTAccessTokens {
+		// a provider whose access tokens are JWTs under its published keys (audience: the
+		// resource server); whether one is still honoured is for the provider to say
+		hdr := []byte(`{"alg":"EdDSA","kid":"k1","typ":"at+jwt"}`)
+		pl, _ := json.Marshal(map[string]any{"iss": p.Issuer, "sub": sub, "aud": "rdpgw-resource", "jti": fmt.Sprintf("at-%d", p.seq),
+			"iat": time.Now().Unix(), "exp": time.Now().Add(time.Hour).Unix()})
+		in := codec.B64(hdr) + "." + codec.B64(pl)
+		at = in + "." + codec.B64(ed25519.Sign(p.priv, []byte(in)))
+	}
 	if p.TokenPad > 0 {
 		// providers that pack group memberships into the access token issue kilobytes
 		at += "." + strings.Repeat("g0123456789abcdef", p.TokenPad/17+1)[:p.TokenPad]
